@@ -290,7 +290,9 @@ func c14Accept(c *Ctx, cg *core.CallGraph) {
 		switch {
 		case cc != nil && core.CalleeName(cc.Common()) != mod+"/protocol.NewConn" && allTemp && nTemp > 0:
 			r.Check(core.IsNilConst(conn), "R-C14.2", construct+" per-connection failure", p.Pos(ret.Pos()), "temporary error, nil connection", "a temporary error is returned together with a connection")
-		case cc != nil && core.CalleeName(cc.Common()) == mod+"/protocol.NewConn":
+		case derivesOnlyFromNewConn(src) != nil:
+			// the error is NewConn's, possibly joined with a clean-up error on its failure branch
+			cc = derivesOnlyFromNewConn(src)
 			okNC, why := newConnCannotFail(c, cc)
 			r.Check(okNC, "R-C14.2", construct+" NewConn error", p.Pos(ret.Pos()), "NewConn's only error source is option parsing and the options used cannot fail", "NewConn may fail with a non-temporary error after a connection was accepted: "+why)
 		default:
@@ -426,4 +428,67 @@ func newConnCannotFail(c *Ctx, call *ssa.Call) (bool, string) {
 		}
 	}
 	return true, ""
+}
+
+
+// derivesOnlyFromNewConn: every value the error may take is NewConn's error
+// result, or an errors.Join / fmt.Errorf that carries it (so it is non-nil only
+// if NewConn failed). Returns that NewConn call.
+func derivesOnlyFromNewConn(v ssa.Value) *ssa.Call {
+	var nc *ssa.Call
+	ok := true
+	var walk func(x ssa.Value, depth int) bool // true if x carries NewConn's error
+	walk = func(x ssa.Value, depth int) bool {
+		if depth > 4 {
+			return false
+		}
+		carries := false
+		all := true
+		for _, y := range flattenPhi(x) {
+			for {
+				if mi, isMI := y.(*ssa.MakeInterface); isMI {
+					y = mi.X
+					continue
+				}
+				if ci, isCI := y.(*ssa.ChangeInterface); isCI {
+					y = ci.X
+					continue
+				}
+				break
+			}
+			if core.IsNilConst(y) {
+				continue
+			}
+			call, idx := core.CallResult(y)
+			switch {
+			case call != nil && core.CalleeName(call.Common()) == mod+"/protocol.NewConn" && idx == 1:
+				nc = call
+				carries = true
+			case call != nil && (core.CalleeName(call.Common()) == "errors.Join" || core.CalleeName(call.Common()) == "fmt.Errorf"):
+				inner := false
+				for _, a := range call.Call.Args {
+					for _, e := range core.SliceLiteralElems(a) {
+						if walk(e, depth+1) {
+							inner = true
+						}
+					}
+				}
+				if inner {
+					carries = true
+				} else {
+					all = false
+				}
+			default:
+				all = false
+			}
+		}
+		return carries && all
+	}
+	if !walk(v, 0) {
+		ok = false
+	}
+	if !ok {
+		return nil
+	}
+	return nc
 }
